@@ -194,7 +194,12 @@ def play_scripts(d, seed, max_scripts):
     for s in status:
         e = summ.setdefault("%s/%s" % (s["rs"], s["weak"]), {})
         e[s["status"]] = e.get(s["status"], 0) + 1
-    drift = [s for s in status if (s["kind"] == "follow" and s["status"] != "completed") or (s["kind"] == "attack" and s["status"] not in ("refused",))]
+    # what the correct model predicts: behaviours of the correct model and attacks on a weakened COMMIT rule consist of legal
+    # votes only (every step is followed; the real commit rule then commits nothing conflicting); attacks on a weakened vote or
+    # lock rule contain a vote the correct rules refuse
+    def expected(s):
+        return "completed" if s["kind"] == "follow" or s["weak"] in ("commit2", "nodirect") else "refused"
+    drift = [s for s in status if s["status"] != expected(s)]
     return rows, {"scripts_played": len(status), "script_outcomes": summ,
                   "script_conformance_drift": [{k: s[k] for k in ("job", "idx", "status", "at", "notes")} for s in drift[:10]],
                   "script_conformance_drift_count": len(drift)}
